@@ -9,6 +9,7 @@ on the real RunEngine and on the Lean model and compared document by document.
 from __future__ import annotations
 
 import bundler_props as P
+import re_probes as RP
 
 MANIFEST = {
     "text": "FULL under the stated assumption (configuration changes only through configure messages -- made explicit as the "
@@ -37,7 +38,9 @@ extract = P.extract
 
 
 def run(ctx, model=True):
-    return P.run(ctx, "C16", "C16", 1200, 25000, model=model, rule=RULE)
+    res = P.run(ctx, "C16", "C16", 1200, 25000, model=model, rule=RULE)
+    RP.add_to(res, ["configuration"])
+    return res
 
 
 def run_impl_only(ctx):
@@ -45,4 +48,7 @@ def run_impl_only(ctx):
 
 
 def replay(ctx, data):
+    r = RP.replay(data)
+    if r is not None:
+        return r
     return P.replay(ctx, "C16", data)
